@@ -159,6 +159,13 @@ impl<'r> G<'r> {
                 }
             }
             fields.extend(ci.fields.iter().cloned());
+            // the fields inherited so far are in scope for the template arguments of the parents that follow
+            if let Some(r) = self.rec.as_mut() {
+                r.fields.extend(ci.fields.iter().cloned());
+            }
+            if i > 0 {
+                self.p.features.push("parents:later-parent-after-inherited-fields");
+            }
         }
         self.rec = saved;
         (anc, fields)
